@@ -49,6 +49,9 @@ def check(run, project):
     from ..report import RuleView
     from . import c15
     c15.f1_f2(RuleView(run, "F1", "V7"), project)
+    # V9: ... and through Canonical (bytes in, object out)
+    from .shared import canonical_mode_default
+    canonical_mode_default(run, project, "V9", "an out-of-range value is reported as a warning event instead of being rejected")
     c20.t6(run, project, L, facets={"valid", "naming"}, rule="V5")
     # V8 (= C01-W0): WHICH allowed set a field is checked against is decided by the type the layout declares for it: the
     # decode facets (field names, order and declared types, selector maps) of all types equal the pinned snapshot
